@@ -1,8 +1,9 @@
 /-
-  Spec/ParserTemplates.lean — printers of the rendering templates of C02 that have a Lean
-  theorem (the all-numeric ISO-like family); the other templates are printed by the harness
-  (harness/props/_parser_gen.py) and tied by the correspondence only.
-  Compared with the Python printer on every run (`parser.render` op).  No Mathlib.
+  Spec/ParserTemplates.lean — printers of the hand-written template families of C02 (ISO-like with offsets, compact,
+  month-name, 12-hour, NNhNNmNNs, numeric) and what each must parse to (`expect`: which fields come from the text, which
+  from the default).  The schema-generated templates are in Spec/ParserTemplatesGen.lean together with the list of all
+  proved ids (`PT.provedTemplates`).  Every printer is compared with the Python printer of the same id on every run
+  (`parser.tmpl` / `parser.rend` / `parser.render` ops).  No Mathlib.
 -/
 import DateutilVerif.Base.Time
 
